@@ -35,7 +35,7 @@ class G:
     # ---- values
     def bstr(s,nonempty=False):
         n=s.r.choice([1,1,2,3,8] if nonempty else [0,1,2,3,8]); return ('bytes',bytes(s.r.randrange(256) for _ in range(n)))
-    def text(s): return ('text',s.r.choice([b'',b'a',b'b',b'aa',b'a/b',b'text/plain',' a/b'.encode(),b'a/b/c','é/x'.encode(),b'x'*24]))
+    def text(s): return ('text',s.r.choice([b'',b'a',b'b',b'aa',b'a/b',b'text/plain',' a/b'.encode(),b'a/b/c','é/x'.encode(),b'x'*24,b'TEXT/Plain',b'A',b'1',b'2',b'60',b'-7','\uff211'.encode(),'\U0001f600'.encode()]))
     def anyint(s): return ('int',s.r.choice([0,1,2,3,4,5,6,7,8,9,10,23,24,-1,-2,-7,-8,-24,-25,-257,-65535,-65536,-65537,255,256,65536,2**31,2**63-1,2**63,2**64-1,-2**63,-2**63-1,-2**64,33,35,38,40,60,96,98,101]))
     def value(s,d=0):
         r=s.r.random()
@@ -59,7 +59,7 @@ class G:
         r=s.r
         if r.random()<0.4: m.append((('int',1),s.alg()))
         if r.random()<0.2: m.append((('int',2),('array',[r.choice([('int',1),('int',4),('int',0),('text',b'x'),('int',33)]) for _ in range(r.randint(1,3))]) if s.ok() else r.choice([('array',[]),('array',[('int',8)]),('int',1)])))
-        if r.random()<0.3: m.append((('int',3),r.choice([('int',0),('int',60),('int',11544),('text',b'a/b'),('text',b'text/plain'),('text','€/b'.encode()),('text','éé/b'.encode()),('text','a/é'.encode()),('text','é€/€é'.encode())]) if s.ok() else r.choice([('int',1),('text',b''),('text',b'ab'),('text',b' a/b'),('text',b'a/b/c'),('text','é/é/é'.encode()),('text','€'.encode()),('text','/'.encode()),('text','é/'.encode()),s.bstr()])))
+        if r.random()<0.3: m.append((('int',3),r.choice([('int',0),('int',60),('int',11544),('text',b'a/b'),('text',b'text/plain'),('text',b'Application/EDI-X12'),('text',b'A/b'),('text','€/b'.encode()),('text','éé/b'.encode()),('text','a/é'.encode()),('text','é€/€é'.encode())]) if s.ok() else r.choice([('int',1),('text',b''),('text',b'ab'),('text',b' a/b'),('text',b'a/b/c'),('text','é/é/é'.encode()),('text','€'.encode()),('text','/'.encode()),('text','é/'.encode()),s.bstr()])))
         if r.random()<0.4: m.append((('int',4),s.bstr(True) if s.ok() else r.choice([('bytes',b''),('int',1)])))
         iv=r.random()
         if iv<0.2: m.append((('int',5),s.bstr(True) if s.ok() else ('bytes',b'')))
